@@ -1546,7 +1546,7 @@ class C17(Spec):
                   'escaped text minus the backslash, as a finished fragment), with a computed example over all inline kinds; '
                   'C17_escaped_invocation with C17_parametrised_pattern_skips_simple (in text with no other brace or backslash an escaped macro '
                   'invocation comes out of macros.render as the invocation without its backslash, defined or not, with no diagnostic, and the '
-                  'second pass cannot pick it up -- for every prefix, suffix and name, through the exact regex semantics). Line-level '
+                  'second pass cannot pick it up -- for every prefix, suffix and name, through the exact regex semantics); C17_escaped_header_is_literal (a header line with a backslash before it is rendered as the paragraph with the literal text: the header rule drops the backslash and none of the remaining rules matches, for one to six hash signs and every title over the safe alphabet). Other line-level '
                   'escapes and quotes are decided by the literal-text oracle and correspondence; several element kinds violate the property on '
                   'the unchanged code (known findings).')
     rule = ('element kinds x generated instances x positions (line start, after text, in quotes, in list items) x 1-8 escaped elements, '
